@@ -1147,3 +1147,39 @@ Q(name="e2_streams_received_accounting", props=["C06"], func=r"state\.rs:144:1[^
   functions=["StreamsState::received"], pre=lambda c: "true", post=recvd_post,
   bounds="every stream lookup outcome and every verdict of Recv::ingest (covered by recv_ingest_* obligations): ingest is given the frame's payload length, the connection's data_recvd and OUR advertised local_max_data as they are at that moment; on success data_recvd grows by exactly the new bytes (saturating); on failure the error is returned",
   replay=("streams_received_accounting_native", lambda m: [dict(over=0), dict(over=1)]))
+
+
+# ------------------------------------------------------------------ C06 / C11: RESET_STREAM is checked against the connection-level limit and its unread remainder is credited back
+def rr_post(c, p):
+    st = p.p.state
+    calls = st.calls
+    rs = [x for x in calls if re.search(r"Recv::reset$", x[0])]
+    if not rs:
+        return "true"
+    if len(rs) != 1:
+        return "false"
+    x = rs[0]
+    snap = _Snap(st, x[3])
+    a = x[1]
+    if a[1] != ("agg", "_2.1") or a[2] != ("agg", "_2.2") or a[3][0] != "val" or a[4][0] != "val":
+        return "false"                       # (error code, final offset) of THIS frame
+    conj = [eq(a[3][1].t, c.ex.read_key(snap, _ss(c, "data_recvd"), BV64).t),
+            eq(a[4][1].t, c.ex.read_key(snap, _ss(c, "local_max_data"), BV64).t)]
+    ok = eq(c.ex.read_key(st, x[2] + "#discr", I64).t, bv(0))
+    conj.append(imp(not_(ok), eq(c.ex.read_key(st, "_0#discr", I64).t, bv(1))))
+    cr = [y for y in calls if re.search(r"add_read_credits$", y[0])]
+    br = [y for y in calls if re.search(r"Assembler::bytes_read$", y[0])]
+    fin = c.inp("_2.2.0", BV64)
+    if cr:
+        if len(cr) != 1 or not br or cr[0][1][1][0] != "val":
+            return "false"
+        # what the application will never read is returned to the peer as connection-level credit
+        conj.append(eq(cr[0][1][1][1].t, "(bvsub %s %s)" % (fin, br[0][2])))
+    return and_(*conj)
+
+
+Q(name="e2_streams_received_reset", props=["C06", "C11"], func=r"state\.rs:144:1[^>]*>::received_reset$",
+  pure=[r"Assembler::bytes_read$"], inline=[r"VarInt::into_inner$", r"u64 as From<VarInt>>::from$"], allowed_panics=r"attempt to|unwrap_failed",
+  functions=["StreamsState::received_reset"], pre=lambda c: "true", post=rr_post,
+  bounds="every stream lookup outcome and every verdict of Recv::reset (covered by recv_reset): reset is given this frame's error code and final offset, the connection's data_recvd and OUR local_max_data as they are at that moment; an error is returned as is; the credit handed back is final_offset - bytes_read",
+  replay=("streams_received_reset_native", lambda m: [dict(over=0), dict(over=1)]))
